@@ -130,6 +130,8 @@ def run(ctx: Ctx) -> None:
             t = lark.Tree('file_input', [t], lark.tree.Meta())
         trees.append(('random', t, None))
     srcs = {'gen_%d' % i: progen.gen_program(rnd, rnd.randint(1, 3)).src for i in range(ctx.n(40, 800) * scale)}
+    import shapes
+    srcs.update(shapes.ALL)
     sess = tsession.Session(srcs)
     mods = list(srcs) + ['example.FW.string', 'example.json'] + (['rogw.tranp.compatible.libralies.classes', 'tests.unit.rogw.tranp.implements.cpp.transpiler.fixtures.fixture_py2cpp'] if ctx.thorough else [])
     for name in mods:
